@@ -636,6 +636,40 @@ fn observe(
         }
     }
 
+    // (3b) ASTC (no probe possible through flat blocks): the U8 RGBA full decode must put pixel (px, py) of
+    //      block (bx, by), decoded independently block by block with the astc-decode crate, at
+    //      (bx*bw + px, by*bh + py).  This observes the position inside non-square blocks.
+    if name.starts_with("ASTC") && rect.is_none() {
+        if let Geo::Block { bw, bh, bytes } = geo_of(f) {
+            match cached_full(fi, f, &data, sw, sh, seed, 3) {
+                Ok(rgba) => {
+                    let wb = sw.div_ceil(bw);
+                    let fp = astc_decode::Footprint::new(bw as u32, bh as u32);
+                    let mut bad: Option<(usize, usize)> = None;
+                    for by in 0..sh.div_ceil(bh) {
+                        for bx in 0..wb {
+                            let o = (by * wb + bx) * bytes;
+                            let blk: [u8; 16] = data[o..o + 16].try_into().unwrap();
+                            astc_decode::astc_decode_block(&blk, fp, |x, y, c| {
+                                let (gx, gy) = (bx * bw + x as usize, by * bh + y as usize);
+                                if gx < sw && gy < sh && bad.is_none() && rgba[(gy * sw + gx) * 4..][..4] != c {
+                                    bad = Some((gx, gy));
+                                }
+                            });
+                        }
+                    }
+                    if let Some((x, y)) = bad {
+                        orc.push(format!(
+                            "ASTC: pixel ({x},{y}) of the full decode is not pixel ({},{}) of block ({},{}) decoded on its own",
+                            x % bw, y % bh, x / bw, y / bh
+                        ));
+                    }
+                }
+                Err(e) => orc.push(format!("ASTC reference decode failed: {e}")),
+            }
+        }
+    }
+
     // (4) probe formats: where did every pixel come from?
     let mut ssum = "sm=-".to_string();
     if let Some(kind) = probe_of(name) {
@@ -889,7 +923,7 @@ pub fn gen(seed: u64, thorough: bool) -> Vec<String> {
     let mut cyc = 0usize;
     for (name, sizes) in tiny {
         for &(sw, sh) in sizes.iter() {
-            let reps = if thorough { 12 } else { 1 };
+            let reps = if thorough { 24 } else { 2 };
             for _ in 0..reps {
                 let ci = cyc % 12;
                 cyc += 5;
@@ -909,7 +943,7 @@ pub fn gen(seed: u64, thorough: bool) -> Vec<String> {
 
     // (b) every format: widths and heights 1..=70 (all residues of every block size), all rect
     //     classes, all 12 colours, pitches, offsets
-    let per_dim = if thorough { 6 } else { 1 };
+    let per_dim = if thorough { 120 } else { 8 };
     for round in 0..per_dim {
         for (fi, (name, f)) in FORMATS.iter().enumerate() {
             let (bw, bh) = unit_size(*f);
@@ -986,7 +1020,7 @@ pub fn gen(seed: u64, thorough: bool) -> Vec<String> {
     // (d) full decodes into pitched views: every format x 12 colours (COPY fast paths included)
     for (name, _) in FORMATS.iter() {
         for ci in 0..12usize {
-            let reps = if thorough { 8 } else if PROBES.contains(name) { 3 } else { 1 };
+            let reps = if thorough { 30 } else if PROBES.contains(name) { 6 } else { 3 };
             for _ in 0..reps {
                 let b1 = if g.rng.chance(1, 4) { 70 } else { 20 };
                 let sw = 1 + g.rng.below(b1) as usize;
@@ -998,9 +1032,25 @@ pub fn gen(seed: u64, thorough: bool) -> Vec<String> {
         }
     }
 
+    // (d2) native colour (whole-image COPY fast paths where they exist) x every pitch mode x offsets
+    for (name, f) in FORMATS.iter() {
+        let nc = f.color();
+        let ci = PRECISIONS.iter().position(|p| *p == nc.precision).unwrap() * 4 + ch_idx(nc.channels);
+        for mode in 0..4u64 {
+            for rep in 0..(if thorough { 6 } else { 2 }) {
+                let sw = 1 + g.rng.below(if rep == 0 { 9 } else { 40 }) as usize;
+                let sh = 2 + g.rng.below(12) as usize;
+                let pitch = pitch_for(mode, sw * Gen::bpp(ci));
+                let buf_off = g.rng.below(4);
+                let s = g.rng.below(1 << 20);
+                g.out.push(format!("F {name} {sw} {sh} {ci} {pitch} {buf_off} {s}"));
+            }
+        }
+    }
+
     // (e) locality
     for (name, _) in FORMATS.iter() {
-        let reps = if thorough { 60 } else { 8 };
+        let reps = if thorough { 200 } else { 12 };
         for _ in 0..reps {
             let sw = 1 + g.rng.below(40) as usize;
             let sh = 1 + g.rng.below(30) as usize;
